@@ -97,6 +97,7 @@ pub struct ModelStats {
     pub max_include_depth: usize,
     pub generated_defs: usize,
     pub generated_def_expansions: usize,
+    pub undefs_via: usize,
 }
 
 pub fn run_model(case: &Case, flags: Flags) -> ModelRun {
@@ -117,6 +118,7 @@ pub fn run_model(case: &Case, flags: Flags) -> ModelRun {
             max_include_depth: m.max_include_depth,
             generated_defs: m.generated_ids.len(),
             generated_def_expansions: m.generated_def_expansions,
+            undefs_via: m.undefs_via,
         },
         out: m.out,
         chunks: m.chunks,
